@@ -25,7 +25,7 @@ RULE = ("48 policy combinations x encodings {ndarray C, ndarray F / transposed v
         "and query contexts, plus single-feature and single-row problems passed as Series; list encoding is the reference. "
         "Non-trivial = encoding that is not C-contiguous float64, or a Series on a one-feature / one-row problem; distinct = "
         "(combo, encoding, shape class)")
-BUDGET = {"quick": {"cases": 48 * 9, "shards": 8}, "thorough": {"cases": 48 * 9 * 30, "shards": 16, "wall_s": 2400}}
+BUDGET = {"quick": {"cases": 48 * 18, "shards": 16}, "thorough": {"cases": 48 * 9 * 60, "shards": 16, "wall_s": 3600}}
 MIN = {"quick": {"evaluations": 700, "nontrivial": 250, "counters": {"c18_snapshots": 2000, "c18_ctor_snapshots": 700}},
        "thorough": {"evaluations": 20000, "nontrivial": 800, "counters": {"c18_snapshots": 60000, "c18_ctor_snapshots": 20000}}}
 ASSUMPTIONS = ["integer encodings are used only where every value is integral (contexts always; rewards when binary)",
